@@ -369,8 +369,32 @@ func c13Scenarios() map[string]c13Setup {
 		p := c13PolicyExt(x)
 		return []c13Call{{"Assemble(P extended by one group, built fresh)", func() string { return c13Compile(p) }}}, []*seccomp.Policy{p}
 	})
+	// groups beyond any small-size threshold (60 names), valid and rejected (an unknown name in the middle; a duplicate)
+	m["hist-L"] = mkScenario("hist-L", func() ([]c13Call, []*seccomp.Policy) {
+		l, lu, ld := c13Large(x, 0), c13Large(x, 1), c13Large(x, 2)
+		return []c13Call{{"Assemble(L)", func() string { return c13Compile(l) }}, {"Assemble(L with an unknown name)", func() string { return c13Compile(lu) }}, {"Assemble(L with a duplicate name)", func() string { return c13Compile(ld) }}}, []*seccomp.Policy{l, lu, ld}
+	})
 	c13ScenCache = m
 	return m
+}
+
+// c13Large: one group of 60 names plus a conditional entry; defect 1 = an unknown name in the middle, 2 = a name twice.
+func c13Large(a *refsem.Arch, defect int) *seccomp.Policy {
+	all := a.SortedNames()
+	names := make([]string, 0, 64)
+	for i := 0; len(names) < 60 && i < len(all); i += 3 {
+		names = append(names, all[i])
+	}
+	switch defect {
+	case 1:
+		names[30] = "no_such_syscall_xyz"
+	case 2:
+		names[41] = names[7]
+	}
+	p := &seccomp.Policy{DefaultAction: seccomp.ActionErrno, Syscalls: []seccomp.SyscallGroup{{Action: seccomp.ActionAllow, Names: names,
+		NamesWithCondtions: []seccomp.NameWithConditions{{Name: all[1], Conditions: seccomp.ArgumentConditions{{Argument: 2, Operation: seccomp.LessThan, Value: 1 << 35}}}}}}}
+	seccomp.VerifSetArch(p, a.Info)
+	return p
 }
 
 var _ = reflect.DeepEqual
